@@ -10,7 +10,7 @@ if ! go build ./... 2>/tmp/mut_build.err; then echo "MUT does not build: $e"; he
 scratch=$(mktemp -d /tmp/fpmut.XXXXXX); cp /verif/known_findings.txt $scratch/
 hit=0
 for p in "$@"; do
-  /verif/bin/fpcheck -property $p -repo /repo -verif $scratch > $scratch/out 2>&1 || hit=1
+  ${FPMUTBIN:-/verif/bin/fpcheck} -property $p -repo /repo -verif $scratch > $scratch/out 2>&1 || hit=1
   grep -E "^  rule=" $scratch/out | cut -c1-160 | head -4
 done
 git checkout -- .
